@@ -1196,7 +1196,7 @@ def execute (cmd : Cmd) : EM Status := do
 
 /-! ### `src/lib.rs` loops -/
 
-def truncateChanges (mark : Nat) : EM Unit := modify (fun s => { s with changes := s.changes.truncate mark })
+def truncateChanges (mark : Nat) : EM Unit := modify (fun s => { s with changes := s.changes.truncateClosed mark })
 
 /-- `mark = mark.min(s.changes.len())` after a `next_cmd` inside a sub-loop (repair of D47): a key that
     leaves vi insert mode closes every open undo group, also the ones below the mark -/
